@@ -10,4 +10,4 @@ ASSUMPTIONS = vh_c02.ASSUMPTIONS[:4] + [
 SPLIT = {"par2": [("_none", "not fa and not fb"), ("_a", "fa and not fb"), ("_ab", "fa and fb")],
          "par_catch": [("_s%d_a" % s, "sib == %d and fa and not fb" % s) for s in range(3)],
          "map_items": [("_ok", "failing == -1"), ("_fail", "failing >= 0 and n >= 1")]}
-scn.register(globals(), {"C09"}, ["seq_chain", "two_execs", "start_routes", "par2", "par_pass_task", "par_catch", "par_retry", "map_items"], SPLIT)
+scn.register(globals(), {"C09"}, ["seq_chain", "seq_misc", "two_execs", "start_routes", "par2", "par_pass_task", "par_catch", "par_retry", "map_items"], SPLIT)
